@@ -17,6 +17,7 @@ CONSTANTS E,          \* blocks per epoch
           N,          \* number of validators (orders 0..N-1)
           Me,         \* order of the node's own key, -1 when it is not a validator
           MaxBlocks, MaxHeight, MaxVotes, MaxCalls,
+          MaxRestarts, \* clean restarts of the node (close, reopen on the stored records) per behaviour
           Byz,        \* validators allowed to sign anything (others are honest)
           Shape,      \* "free": any tree; "two": at most two branches from genesis, blocks only extend tips (deep histories)
           FullMint,   \* TRUE: the environment always mints MaxBlocks blocks and signs as many votes as fit (random deep walks)
@@ -41,12 +42,15 @@ VARIABLES blk,      \* Seq([p, h, car]): minted blocks; car = set of vote ids ca
           ticks,    \* Seq(id): epoch hashes queued for the cached-verification loop
           posted,   \* Seq([v, s, t]): verification events the node posted (own votes and relayed ones)
           everF,    \* ghost: every checkpoint that ever was finalized
+          proot,    \* finalized checkpoint as persisted with the chain status (written only when the best block changes)
+          nrestarts,
           vseen,    \* vote ids already delivered (tracked in InOrder mode only, where each vote is delivered once)
           devs,     \* ghost: justifications [t, s] the code made from a source that was not justified (known deviation)
           ncalls, last
 
 nvars == <<stored, prevOrph, best, mainIdx, root, status, links, hdr, vcache, ticks, posted, everF, devs>>
-vars == <<blk, byh, votes, phase, nvars, vseen, ncalls, last>>
+rvars == <<proot, nrestarts>>
+vars == <<blk, byh, votes, phase, nvars, rvars, vseen, ncalls, last>>
 
 Ids == 1..Len(blk)
 Parent(b) == IF b = 0 THEN 0 ELSE blk[b].p
@@ -190,6 +194,7 @@ Init == /\ blk = <<>> /\ byh = [h \in 1..MaxHeight |-> <<>>] /\ votes = <<>> /\ 
         /\ mainIdx = [h \in 0..MaxHeight |-> IF h = 0 THEN 0 ELSE -1]
         /\ root = 0 /\ status = [b \in 0..MaxBlocks |-> IF b = 0 THEN "J" ELSE "N"]
         /\ links = {} /\ hdr = {} /\ vcache = {} /\ ticks = <<>> /\ posted = <<>> /\ everF = {} /\ devs = {}
+        /\ proot = 0 /\ nrestarts = 0
         /\ vseen = {} /\ ncalls = 0 /\ last = [op |-> "init"]
 
 Mint(p, pos) ==
@@ -202,12 +207,12 @@ Mint(p, pos) ==
      /\ blk' = Append(blk, [p |-> p, h |-> h, car |-> {}])
      /\ byh' = [byh EXCEPT ![h] = InsertAt(@, pos, id)]
      /\ last' = [op |-> "mint", id |-> id, p |-> p, pos |-> pos]
-  /\ UNCHANGED <<votes, phase, nvars, vseen, ncalls>>
+  /\ UNCHANGED <<votes, phase, nvars, rvars, vseen, ncalls>>
 
 EndMint == /\ phase = "mint" /\ Len(blk) >= 1 /\ (FullMint => Len(blk) = MaxBlocks) /\ phase' = "votes" /\ last' = [op |-> "endmint"]
-           /\ UNCHANGED <<blk, byh, votes, nvars, vseen, ncalls>>
+           /\ UNCHANGED <<blk, byh, votes, nvars, rvars, vseen, ncalls>>
 EndVotes == /\ phase = "votes" /\ (FullMint => Len(votes) + N > MaxVotes) /\ phase' = "run" /\ last' = [op |-> "endmint"]
-            /\ UNCHANGED <<blk, byh, votes, nvars, vseen, ncalls>>
+            /\ UNCHANGED <<blk, byh, votes, nvars, rvars, vseen, ncalls>>
 
 (* honest validators: source globally justified (by the votes made so far), ancestor of the target, *)
 (* and no slashable pair with their earlier votes; Byzantine ones sign anything                      *)
@@ -237,7 +242,7 @@ MakeVote(v, s, t, ok) ==
   /\ (~Quorum /\ Len(votes) > 0) => VoteLeq(votes[Len(votes)], [v |-> v, s |-> s, t |-> t, ok |-> ok])   \* canonical order
   /\ votes' = Append(votes, [v |-> v, s |-> s, t |-> t, ok |-> ok])
   /\ last' = [op |-> "makevote", id |-> Len(votes) + 1, v |-> v, s |-> s, t |-> t, ok |-> ok]
-  /\ UNCHANGED <<blk, byh, phase, nvars, vseen, ncalls>>
+  /\ UNCHANGED <<blk, byh, phase, nvars, rvars, vseen, ncalls>>
 
 (* every honest validator (other than the node) that may sign s -> t does so in one step *)
 RECURSIVE AppendVotes(_, _, _, _)
@@ -252,7 +257,7 @@ MakeQuorum(s, t) ==
      /\ Q # {} /\ Len(votes) + Cardinality(Q) <= MaxVotes
      /\ votes' = AppendVotes(votes, Q, s, t)
      /\ last' = [op |-> "makequorum", id |-> Len(votes) + 1, vs |-> Q, s |-> s, t |-> t]
-  /\ UNCHANGED <<blk, byh, phase, nvars, vseen, ncalls>>
+  /\ UNCHANGED <<blk, byh, phase, nvars, rvars, vseen, ncalls>>
 
 (* a proposer may put known votes for the block itself into its header before it is first delivered *)
 Carry(b, i) ==
@@ -261,7 +266,7 @@ Carry(b, i) ==
   /\ b \notin stored /\ b \notin Orphans(prevOrph)
   /\ blk' = [blk EXCEPT ![b].car = @ \cup {i}]
   /\ last' = [op |-> "carry", b |-> b, vote |-> i]
-  /\ UNCHANGED <<byh, votes, phase, nvars, vseen, ncalls>>
+  /\ UNCHANGED <<byh, votes, phase, nvars, rvars, vseen, ncalls>>
 
 Reorg(n) == LET nb == BestOf(n.stored, n.status, n.root) IN
             /\ best' = nb /\ mainIdx' = IF nb = best THEN mainIdx ELSE MainIdxFor(nb, mainIdx)
@@ -293,6 +298,8 @@ Deliver(b) ==
               ELSE LET n2 == SaveSub(r.n, b) IN
                    /\ SetNode(n2) /\ Reorg(n2) /\ UNCHANGED vcache
                    /\ last' = [op |-> "deliver", b |-> b, orphan |-> FALSE, err |-> FALSE]
+  /\ proot' = (IF best' # best THEN root' ELSE proot)
+  /\ UNCHANGED nrestarts
   /\ UNCHANGED <<blk, byh, votes, phase, vseen>>
 
 (* Casper.authVerification of an admitted message, shared by DeliverVote and EpochTick *)
@@ -323,6 +330,8 @@ DeliverVote(i) ==
        ELSE LET n1 == Auth(NodeRec, m.v, m.s, m.t, m.ok) IN
             /\ SetNode(n1) /\ Reorg(n1) /\ UNCHANGED vcache
             /\ last' = [op |-> "vote", i |-> i, err |-> FALSE, r |-> "ok"]
+  /\ proot' = (IF best' # best THEN root' ELSE proot)
+  /\ UNCHANGED nrestarts
   /\ UNCHANGED <<blk, byh, votes, phase>>
 
 (* authVerificationLoop: cached messages for the epoch hash at the head of the queue *)
@@ -345,7 +354,24 @@ EpochTick ==
      /\ SetNode(n1) /\ Reorg(n1)
      /\ vcache' = IF t \in stored THEN {x \in vcache : x.t # t} ELSE vcache
      /\ last' = [op |-> "tick", t |-> t]
+  /\ proot' = (IF best' # best THEN root' ELSE proot)
+  /\ UNCHANGED nrestarts
   /\ UNCHANGED <<blk, byh, votes, phase, vseen, ncalls>>
+
+(* A clean restart: the process stops between two calls and starts again on the stored records.  *)
+(* Orphans, cached verifications and queued epochs die with the process; everything else - in    *)
+(* particular which verifications are admitted into which checkpoint - must be as before.        *)
+(* Explored only in states where two recorded deviations of the code cannot interfere: the       *)
+(* finalized checkpoint has been persisted (C19 finding: it is written with the chain status)    *)
+(* and every stored leaf is an epoch-boundary block (C19 finding: growing checkpoints are lost). *)
+Restart ==
+  /\ phase = "run" /\ NoTick /\ ncalls < MaxCalls /\ nrestarts < MaxRestarts
+  /\ root = proot
+  /\ \A b \in stored : (~\E c \in stored : c # 0 /\ Parent(c) = b /\ c # b) => IsCp(b)
+  /\ nrestarts' = nrestarts + 1 /\ ncalls' = ncalls + 1
+  /\ prevOrph' = [b \in 0..MaxBlocks |-> <<>>] /\ vcache' = {} /\ ticks' = <<>>
+  /\ last' = [op |-> "restart"]
+  /\ UNCHANGED <<blk, byh, votes, phase, stored, best, mainIdx, root, status, links, hdr, posted, everF, devs, proot, vseen>>
 
 Next == \/ \E p \in {0} \cup Ids, pos \in 0..MaxBlocks : Mint(p, pos)
         \/ EndMint \/ EndVotes
@@ -355,6 +381,7 @@ Next == \/ \E p \in {0} \cup Ids, pos \in 0..MaxBlocks : Mint(p, pos)
         \/ \E b \in Ids : Deliver(b)
         \/ \E i \in 1..MaxVotes : DeliverVote(i)
         \/ EpochTick
+        \/ Restart
 
 Spec == Init /\ [][Next]_vars
 
@@ -386,5 +413,5 @@ NoSlashablePair(S) == \A a, b \in S : (a.v = b.v /\ a # b) =>
 NoSlashableAdmitted == NoSlashablePair(links)
 NoSlashableSent == NoSlashablePair({[v |-> posted[i].v, s |-> posted[i].s, t |-> posted[i].t] : i \in {j \in 1..Len(posted) : posted[j].v = Me}})
 
-View == <<blk, byh, votes, phase, nvars, vseen, ncalls>>
+View == <<blk, byh, votes, phase, nvars, rvars, vseen, ncalls>>
 =============================================================================
